@@ -1464,6 +1464,63 @@ XPath::getMatchScore(
 
 
 
+XPath::eMatchScore
+XPath::getMatchScore(
+            XalanNode*              node,
+            const PrefixResolver&   resolver,
+            XPathExecutionContext&  executionContext,
+            XalanSize_t             theAlternative) const
+{
+    assert(node != 0);
+
+    if(m_expression.getOpCodeMapValue(0) != XPathExpression::eOP_MATCHPATTERN)
+    {
+        // Not a match pattern: let the general function report that.
+        return getMatchScore(node, resolver, executionContext);
+    }
+    else
+    {
+        OpCodeMapPositionType   opPos =
+            m_expression.getInitialOpCodePosition() + 2;
+
+        // Find the alternative...
+        while(theAlternative != 0 &&
+              m_expression.getOpCodeMapValue(opPos) == XPathExpression::eOP_LOCATIONPATHPATTERN)
+        {
+            opPos = m_expression.getNextOpCodePosition(opPos);
+
+            --theAlternative;
+        }
+
+        if (m_expression.getOpCodeMapValue(opPos) != XPathExpression::eOP_LOCATIONPATHPATTERN)
+        {
+            return eMatchScoreNone;
+        }
+        else
+        {
+            const PrefixResolver* const     theCurrentResolver =
+                executionContext.getPrefixResolver();
+
+            if (theCurrentResolver == &resolver)
+            {
+                return locationPathPattern(executionContext, *node, opPos);
+            }
+            else
+            {
+                // Push and pop the PrefixResolver...
+                const PrefixResolverSetAndRestore   theSetAndRestore(
+                                                        executionContext,
+                                                        theCurrentResolver,
+                                                        &resolver);
+
+                return locationPathPattern(executionContext, *node, opPos);
+            }
+        }
+    }
+}
+
+
+
 inline const XalanDOMString*
 getStringFromTokenQueue(
             const XPathExpression&          expression,
